@@ -365,7 +365,33 @@ def namedtuple_tables(mods):
             if len(kinds) == 1 and None not in kinds:
                 returns[name] = kinds.pop()
                 changed = True
-    return nts, returns
+    # fields that name nothing else in src/: no attribute of that name is ever stored, no function / class / class-level name is called so, and
+    # only one named tuple has it - `x.<field>` can then only be a read of that field, whatever `x` is
+    class _NTs(dict):
+        unique = {}
+    nts2 = _NTs(nts)
+    owners = {}
+    for t_, fl in nts.items():
+        for i_, f_ in enumerate(fl):
+            owners.setdefault(f_, []).append((t_, i_))
+    taken = set()
+    for mod in mods:
+        for n_ in ast.walk(mod):
+            if isinstance(n_, ast.Attribute) and isinstance(n_.ctx, (ast.Store, ast.Del)):
+                taken.add(n_.attr)
+            elif isinstance(n_, (ast.FunctionDef, ast.ClassDef)):
+                taken.add(n_.name)
+            elif isinstance(n_, ast.ClassDef):
+                pass
+        for c_ in [x for x in ast.walk(mod) if isinstance(x, ast.ClassDef)]:
+            for st_ in c_.body:
+                if isinstance(st_, (ast.Assign, ast.AnnAssign)):
+                    for tg in (st_.targets if isinstance(st_, ast.Assign) else [st_.target]):
+                        if isinstance(tg, ast.Name) and not (c_.name in nts):
+                            taken.add(tg.id)
+    nts2.unique = {f_: o[0] for f_, o in owners.items() if len(o) == 1 and f_ not in taken and not f_.startswith("_")
+                   and f_ not in ("count", "index", "real", "imag", "shape", "size", "values", "keys", "items", "name", "T")}
+    return nts2, returns
 
 
 def namedtuples_as_tuples(tree, nts, returns):
@@ -373,10 +399,24 @@ def namedtuples_as_tuples(tree, nts, returns):
     if not nts:
         return 0
     n = [0]
+    uniq = getattr(nts, "unique", {})
+    if uniq:
+        class UField(ast.NodeTransformer):
+            def visit_Attribute(self, a):
+                self.generic_visit(a)
+                if a.attr in uniq and isinstance(a.ctx, ast.Load) and isinstance(a.value, (ast.Name, ast.Subscript)) \
+                        and not (isinstance(a.value, ast.Name) and a.value.id in ("self", "cls", "np")):
+                    n[0] += 1
+                    return ast.copy_location(ast.Subscript(value=a.value, slice=ast.Constant(value=uniq[a.attr][1]), ctx=ast.Load()), a)
+                return a
+        UField().visit(tree)
 
     class Build(ast.NodeTransformer):
         def visit_Call(self, c):
             self.generic_visit(c)
+            if isinstance(c.func, ast.Name) and c.func.id in nts and len(c.args) == 1 and isinstance(c.args[0], ast.Starred) and not c.keywords:
+                n[0] += 1
+                return c.args[0].value          # T(*seq): the same values in the same positions
             if isinstance(c.func, ast.Name) and c.func.id in nts and not any(isinstance(a, ast.Starred) for a in c.args) and all(k.arg for k in c.keywords):
                 fields = nts[c.func.id]
                 vals = dict(zip(fields, c.args))
@@ -388,11 +428,13 @@ def namedtuples_as_tuples(tree, nts, returns):
 
     # locals that hold a named tuple built on the spot (`x = T(...)`), recorded before the constructors become plain tuples
     direct = {}
+    built_stmts = set()
     for fn in [x for x in ast.walk(tree) if isinstance(x, ast.FunctionDef)]:
         for st in ast.walk(fn):
             if isinstance(st, ast.Assign) and len(st.targets) == 1 and isinstance(st.targets[0], ast.Name) and isinstance(st.value, ast.Call) \
                     and isinstance(st.value.func, ast.Name) and st.value.func.id in nts:
                 direct.setdefault(id(fn), {}).setdefault(st.targets[0].id, set()).add(st.value.func.id)
+                built_stmts.add(id(st))
     Build().visit(tree)
     for fn in [x for x in ast.walk(tree) if isinstance(x, ast.FunctionDef)]:
         holds = {k: set(v) for k, v in direct.get(id(fn), {}).items()}
@@ -409,7 +451,7 @@ def namedtuples_as_tuples(tree, nts, returns):
                 for t in st.targets:
                     if isinstance(t, ast.Name) and t.id in holds and not (isinstance(st.value, ast.Call) and (
                             (st.value.func.id if isinstance(st.value.func, ast.Name) else getattr(st.value.func, "attr", None)) in returns)) \
-                            and not (t.id in built_here and isinstance(st.value, ast.Tuple)):
+                            and not (t.id in built_here and (isinstance(st.value, ast.Tuple) or id(st) in built_stmts)):
                         others[t.id] = True
         holds = {k: next(iter(v)) for k, v in holds.items() if len(v) == 1 and k not in others}
         if not holds:
@@ -476,6 +518,13 @@ def nt_param_table(mods, nts):
                 got = dict(zip(bound_params, c.args))
                 got.update({k.arg: k.value for k in c.keywords})
                 v = got.get(p_)
+                if isinstance(v, ast.Name):
+                    # a local of the caller that is only ever built as T(...)
+                    host = next((f_ for m_ in mods for f_ in ast.walk(m_) if isinstance(f_, ast.FunctionDef) and any(x is c for x in ast.walk(f_))), None)
+                    defs_ = [s_.value for s_ in ast.walk(host) if isinstance(s_, ast.Assign) and any(isinstance(t_, ast.Name) and t_.id == v.id for t_ in s_.targets)] if host else []
+                    if defs_ and all(isinstance(d_, ast.Call) and isinstance(d_.func, ast.Name) and d_.func.id in kinds for d_ in defs_) \
+                            and len({d_.func.id for d_ in defs_}) == 1:
+                        v = defs_[0]
                 if not (isinstance(v, ast.Call) and isinstance(v.func, ast.Name) and v.func.id in kinds and (kind is None or kind == v.func.id)):
                     ok = False
                     break
@@ -643,6 +692,10 @@ def stub_table(mods):
     for mod in mods:
         for c in [n for n in mod.body if isinstance(n, ast.ClassDef)]:
             classes.setdefault(c.name, []).append(c)
+    modfuncs = {}
+    for mod in mods:
+        for f_ in [n for n in mod.body if isinstance(n, ast.FunctionDef)]:
+            modfuncs.setdefault(f_.name, []).append(f_)
     out = {}
     for cname, cs in classes.items():
         if len(cs) != 1:
@@ -653,6 +706,17 @@ def stub_table(mods):
                 continue
             call = body[0].value
             f = call.func
+            if isinstance(f, ast.Name) and len(modfuncs.get(f.id, [])) == 1 and f.id not in classes:
+                # ... or to a function of a module
+                a = m.args
+                tg_ = modfuncs[f.id][0]
+                static_ = any(isinstance(d, ast.Name) and d.id == "staticmethod" for d in m.decorator_list)
+                own_ = [x.arg for x in a.args][0 if static_ else 1:]
+                ta_ = tg_.args
+                if not (a.vararg or a.kwarg or a.kwonlyargs or a.posonlyargs or a.defaults or call.keywords or ta_.vararg or ta_.kwarg or ta_.kwonlyargs
+                        or ta_.posonlyargs or ta_.defaults) and [x.id if isinstance(x, ast.Name) else None for x in call.args] == own_ and len(ta_.args) == len(own_):
+                    out[(cname, m.name)] = (None, f.id, tg_)
+                continue
             if not (isinstance(f, ast.Attribute) and isinstance(f.value, ast.Name) and f.value.id in classes and f.value.id != cname and len(classes[f.value.id]) == 1):
                 continue
             a = m.args
@@ -696,12 +760,15 @@ def read_through_stubs(tree, table):
             doc = [s_ for s_ in m.body if isinstance(s_, ast.Expr) and isinstance(s_.value, ast.Constant)][:1]
             m.body = doc + body
             n += 1
-        targets = {v[1]: m for m, v in mine.items()}
+        targets = {v[1]: m for m, v in mine.items() if v[0] is not None}
+        fn_targets = {v[1]: m for m, v in mine.items() if v[0] is None}
         for fn in [x for x in c.body if isinstance(x, ast.FunctionDef) and x.name not in mine]:
             for call in [x for x in ast.walk(fn) if isinstance(x, ast.Call)]:
                 f = call.func
                 if isinstance(f, ast.Attribute) and f.attr in targets and not (isinstance(f.value, ast.Name) and f.value.id == "self"):
                     call.func = ast.copy_location(ast.Attribute(value=ast.Name(id="self", ctx=ast.Load()), attr=targets[f.attr], ctx=ast.Load()), f)
+                elif isinstance(f, ast.Name) and f.id in fn_targets:
+                    call.func = ast.copy_location(ast.Attribute(value=ast.Name(id="self", ctx=ast.Load()), attr=fn_targets[f.id], ctx=ast.Load()), f)
     if n:
         ast.fix_missing_locations(tree)
     return n
